@@ -425,4 +425,236 @@ theorem C01_refines_history (dir : String) (cfg : Cfg) (hcfg : cfg.Valid) (h : L
   obtain ⟨h1, h2⟩ := hrun_ok dir h (σ := ⟨specEmpty, .none⟩) hi0.toQ hok hwf hrunok
   exact ⟨h0, h1, HInv_agree h2⟩
 
+/-! ## corollaries -/
+
+/-- `Merge` and restarts do not touch the specification's map (by definition of `specStep`) -/
+theorem spec_merge_restart_keep_map (σ : SpecSt) (order : List Nat) (cfg : Cfg) :
+    (specStep σ (.merge order)).1.m = σ.m ∧ (specStep σ (.restart cfg)).1.m = σ.m := ⟨rfl, rfl⟩
+
+/-- the writes a call makes effective: a plain `Put` / `Delete` with a non-empty key at once, the
+    operations a batch has issued at its `Commit`, in issue order; nothing else writes -/
+def stepWrites (σ : SpecSt) : HOp → List (ByteArray × Option ByteArray)
+  | .a (.put k v) => if isLive σ.slot = true ∨ k.size = 0 then [] else [(k, some v)]
+  | .a (.del k) => if isLive σ.slot = true ∨ k.size = 0 then [] else [(k, none)]
+  | .a .bcommit => match σ.slot with
+    | .live issued => issued
+    | _ => []
+  | _ => []
+
+/-- all effective writes of a history, in the order in which they take effect -/
+def writesOf (σ : SpecSt) : List HOp → List (ByteArray × Option ByteArray)
+  | [] => []
+  | op :: ops => stepWrites σ op ++ writesOf (specStep σ op).1 ops
+
+theorem specStep_map (σ : SpecSt) (op : HOp) : (specStep σ op).1.m = foldIssued σ.m (stepWrites σ op) := by
+  obtain ⟨m, sl⟩ := σ
+  cases op with
+  | merge order => rfl
+  | restart cfg => rfl
+  | a op =>
+    cases sl with
+    | live issued => cases op <;> rfl
+    | none =>
+      cases op with
+      | put k v =>
+        show (if k.size = 0 then m else specPut m k v) = foldIssued m (if false = true ∨ k.size = 0 then [] else [(k, some v)])
+        by_cases h0 : k.size = 0
+        · rw [if_pos h0, if_pos (Or.inr h0)]; rfl
+        · rw [if_neg h0, if_neg (by simp [h0])]; rfl
+      | del k =>
+        show (if k.size = 0 then m else specDel m k) = foldIssued m (if false = true ∨ k.size = 0 then [] else [(k, none)])
+        by_cases h0 : k.size = 0
+        · rw [if_pos h0, if_pos (Or.inr h0)]; rfl
+        · rw [if_neg h0, if_neg (by simp [h0])]; rfl
+      | _ => rfl
+    | dead =>
+      cases op with
+      | put k v =>
+        show (if k.size = 0 then m else specPut m k v) = foldIssued m (if false = true ∨ k.size = 0 then [] else [(k, some v)])
+        by_cases h0 : k.size = 0
+        · rw [if_pos h0, if_pos (Or.inr h0)]; rfl
+        · rw [if_neg h0, if_neg (by simp [h0])]; rfl
+      | del k =>
+        show (if k.size = 0 then m else specDel m k) = foldIssued m (if false = true ∨ k.size = 0 then [] else [(k, none)])
+        by_cases h0 : k.size = 0
+        · rw [if_pos h0, if_pos (Or.inr h0)]; rfl
+        · rw [if_neg h0, if_neg (by simp [h0])]; rfl
+      | _ => rfl
+
+/-- the specification's final map is the effective writes applied one by one -/
+theorem specRun_map (h : List HOp) : ∀ (σ : SpecSt), (specRun σ h).1.m = foldIssued σ.m (writesOf σ h) := by
+  induction h with
+  | nil => intro σ; rfl
+  | cons op ops ih =>
+    intro σ
+    show (specRun (specStep σ op).1 ops).1.m = _
+    rw [ih, specStep_map]
+    simp only [writesOf, foldIssued, List.foldl_append]
+
+/-- **C01 for histories, "latest write wins".**  If the history does not end inside a batch, every
+    key maps to the value of its most recent effective write — a plain put, or a put issued by a
+    batch that was committed, in commit order — and to nothing when it was never written or its most
+    recent effective write was a delete (`C05.own k ws`: the last entry for `k` in `ws`).  Merges
+    and restarts do not occur in `writesOf` at all. -/
+theorem C01_latest_write_history (dir : String) (cfg : Cfg) (hcfg : cfg.Valid) (h : List HOp)
+    (hok : ∀ op ∈ h, HOpOK op) (hwf : WF false h = true)
+    (hrunok : RunOK dir (openDB St.init dir cfg).1 h)
+    (hq : isLive (specRun ⟨specEmpty, .none⟩ h).1.slot = false) (k : ByteArray) :
+    absOf (hrun dir (openDB St.init dir cfg).1 h).1 k
+      = (C05.own k (writesOf ⟨specEmpty, .none⟩ h)).getD none := by
+  obtain ⟨_, _, hag⟩ := C01_refines_history dir cfg hcfg h hok hwf hrunok
+  have hm := specRun_map h ⟨specEmpty, .none⟩
+  generalize specRun ⟨specEmpty, .none⟩ h = R at *
+  obtain ⟨⟨m, sl⟩, res⟩ := R
+  have hk : absOf (hrun dir (openDB St.init dir cfg).1 h).1 k = m k := by
+    cases sl with
+    | live issued => simp [isLive] at hq
+    | none => exact hag k
+    | dead => exact hag k
+  rw [hk]
+  simp only at hm
+  rw [hm]
+  show (writesOf ⟨specEmpty, .none⟩ h).foldl applyIssued specEmpty k = _
+  rw [← C05.layered_eq_fold]
+  unfold C05.layered
+  cases C05.own k (writesOf ⟨specEmpty, .none⟩ h) <;> rfl
+
+/-! ## C06, the gap closed: batch sessions between a successful `Merge` and its adoption -/
+
+theorem runOps_gstep (ops : List C05.BOp) : ∀ {s : St} {db : DB} {g : GDir} {b : BatchSt} {base : Spec}
+    {issued : List (ByteArray × Option ByteArray)} {l0 fl : List (Record.Record × Frame.Pos)},
+    BInvX s db g b base issued l0 fl → (∀ op ∈ ops, C05.BOpOK op) →
+    ∃ db' g' b' issued' fl', BInvX (C05.runOps s ops).1 db' g' b' base issued' l0 fl' ∧ b'.id = b.id ∧
+      db'.dir = db.dir ∧ GStep (IsBatch b.id) db g (C05.runOps s ops).1 db' g' ∧
+      (C05.runOps s ops).1.world.get (mergeDirName db.dir) = s.world.get (mergeDirName db.dir) := by
+  induction ops with
+  | nil =>
+    intro s db g b base issued l0 fl hx _
+    exact ⟨db, g, b, issued, fl, hx, rfl, rfl, GStep.refl _ hx.core.files, rfl⟩
+  | cons op ops ih =>
+    intro s db g b base issued l0 fl hx hok
+    have hop := hok op (by simp)
+    have hid64 : b.id < 2 ^ 64 := by have := hx.core.idlt; omega
+    have hne : mergeDirName db.dir ≠ db.dir := Restart.mergeDirName_ne _
+    -- one step
+    have hstep : ∃ db1 g1 b1 issued1 fl1, BInvX (C05.bstep s op).1 db1 g1 b1 base issued1 l0 fl1 ∧ b1.id = b.id ∧
+        db1.dir = db.dir ∧ GStep (IsBatch b.id) db g (C05.bstep s op).1 db1 g1 ∧
+        (C05.bstep s op).1.world.get (mergeDirName db.dir) = s.world.get (mergeDirName db.dir) := by
+      cases op with
+      | bput k v =>
+        by_cases h0 : k.size = 0
+        · show ∃ db1 g1 b1 issued1 fl1, BInvX (bput s k v).1 db1 g1 b1 base issued1 l0 fl1 ∧ b1.id = b.id ∧
+            db1.dir = db.dir ∧ GStep (IsBatch b.id) db g (bput s k v).1 db1 g1 ∧
+            (bput s k v).1.world.get (mergeDirName db.dir) = s.world.get (mergeDirName db.dir)
+          rw [bput_keyempty hx.open_ hx.batch k v h0]
+          exact ⟨db, g, b, issued, fl, hx, rfl, rfl, GStep.refl _ hx.core.files, rfl⟩
+        · obtain ⟨_, db', g', b', new, hx', hid, _⟩ := bput_specX hx k v (by omega) hop.1 hop.2
+          obtain ⟨db'', g'', hs'', hgs⟩ := bput_gstep hx.open_ hx.batch hx.core.files hx.core.stagedOK hid64 k v
+          rw [hx'.open_] at hs''; cases hs''
+          have hgg : g'' = g' := PolicyP.Files_unique hgs.files hx'.core.files
+          subst hgg
+          obtain ⟨hfr1, dbf, hsf, hdf⟩ := bput_frame hx.open_ k v
+          rw [hx'.open_] at hsf; cases hsf
+          exact ⟨db', g'', b', _, _, hx', hid, hdf, hgs, hfr1 _ hne⟩
+      | bdel k =>
+        by_cases h0 : k.size = 0
+        · show ∃ db1 g1 b1 issued1 fl1, BInvX (bdel s k).1 db1 g1 b1 base issued1 l0 fl1 ∧ b1.id = b.id ∧
+            db1.dir = db.dir ∧ GStep (IsBatch b.id) db g (bdel s k).1 db1 g1 ∧
+            (bdel s k).1.world.get (mergeDirName db.dir) = s.world.get (mergeDirName db.dir)
+          rw [bdel_keyempty hx.open_ hx.batch k h0]
+          exact ⟨db, g, b, issued, fl, hx, rfl, rfl, GStep.refl _ hx.core.files, rfl⟩
+        · obtain ⟨_, db', g', b', new, hx', hid, _⟩ := bdel_specX hx k (by omega) hop
+          obtain ⟨db'', g'', hs'', hgs⟩ := bdel_gstep hx.open_ hx.batch hx.core.files hx.core.stagedOK hid64 k
+          rw [hx'.open_] at hs''; cases hs''
+          have hgg : g'' = g' := PolicyP.Files_unique hgs.files hx'.core.files
+          subst hgg
+          obtain ⟨hfr1, dbf, hsf, hdf⟩ := bdel_frame hx.open_ k
+          rw [hx'.open_] at hsf; cases hsf
+          exact ⟨db', g'', b', _, _, hx', hid, hdf, hgs, hfr1 _ hne⟩
+      | bget k =>
+        show ∃ db1 g1 b1 issued1 fl1, BInvX (bget s k).1 db1 g1 b1 base issued1 l0 fl1 ∧ b1.id = b.id ∧
+          db1.dir = db.dir ∧ GStep (IsBatch b.id) db g (bget s k).1 db1 g1 ∧
+          (bget s k).1.world.get (mergeDirName db.dir) = s.world.get (mergeDirName db.dir)
+        rw [bget_state]
+        exact ⟨db, g, b, issued, fl, hx, rfl, rfl, GStep.refl _ hx.core.files, rfl⟩
+    obtain ⟨db1, g1, b1, issued1, fl1, hx1, hid1, hd1, hgs1, hw1⟩ := hstep
+    obtain ⟨db2, g2, b2, issued2, fl2, hx2, hid2, hd2, hgs2, hw2⟩ := ih hx1 (fun o ho => hok o (by simp [ho]))
+    rw [hid1] at hgs2
+    rw [hd1] at hw2
+    exact ⟨db2, g2, b2, issued2, fl2, hx2, hid2.trans hid1, hd2.trans hd1, hgs1.trans hgs2, hw2.trans hw1⟩
+
+/-- **C06, `MergeOutB` is stable under whole batch sessions** (`NewBatch; Put/Delete/Get…; Commit;`
+    the batch object is dropped — `C05.runBatch`), with ANY positive batch id below 2^63, any
+    operations, any number of intermediate flushes and file rotations.  Let `db` be open on `s` with
+    the invariant for `g`, the merge directory be `MergeOutB` for `g` (e.g. right after a successful
+    `Merge`: `C06_merge_establishes` and `MergeOutW.toB`; or after earlier writes and batches), and
+    the log be sealed (`NoPend`: true in every state a crash-free history reaches).  After the
+    session the invariant holds again, the session behaved as C05 says, the merge directory is
+    `MergeOutB` — same marker, same merged files — for the NEW ghost directory, and the log is sealed
+    again: so the theorem iterates, alternates with `C06_mergeOut_stable` (plain writes), and ends
+    in `C06_adopt_after_batches`. -/
+theorem C06_mergeOut_stable_batch (s : St) (db : DB) (g : GDir) (n : Nat) (gm vis : GDir) (sync : Bool) (id : Nat)
+    (ops : List C05.BOp) (hdb : s.db = some db) (hinv : Inv s db g)
+    (hmo : MergeOutB s.world db.dir g n gm vis) (hnp : NoPend (Engine.logOf g))
+    (h0 : 0 < id) (hlt : id < 2 ^ 63) (hok : ∀ op ∈ ops, C05.BOpOK op) :
+    (C05.runBatch s sync id ops).2 = .ok :: (C05.specBatch (absGet s db) ops).2 ++ [.ok, .ok] ∧
+    ∃ db' g', (C05.runBatch s sync id ops).1.db = some db' ∧ db'.dir = db.dir ∧
+      Inv (C05.runBatch s sync id ops).1 db' g' ∧
+      (∀ k, absGet (C05.runBatch s sync id ops).1 db' k = (C05.specBatch (absGet s db) ops).1 k) ∧
+      MergeOutB (C05.runBatch s sync id ops).1.world db.dir g' n gm vis ∧ NoPend (Engine.logOf g') := by
+  have hpre : C05.Pre s db g id ops := ⟨hdb, hinv, h0, hlt, hnp id, hok⟩
+  obtain ⟨hres, dbL, gL, hsL, _, habsL, _⟩ := C05.C05_layered s db g sync id ops hpre
+  refine ⟨hres, ?_⟩
+  -- walk through the session with explicit ghost directories
+  have hx0 := bnew_specX hinv hdb sync id h0 hlt (hnp id)
+  obtain ⟨db1, g1, b1, issued1, fl1, hx1, hid1, hd1, hgs1, hw1⟩ := runOps_gstep ops hx0 hok
+  have hid1' : b1.id = id := hid1
+  obtain ⟨_, db2, g2, hseal, habs2, hempty, hnonempty⟩ := bcommit_specX hx1
+  obtain ⟨db2', g2', hs2, hgs2⟩ := bcommit_gstep hx1.open_ hx1.batch hx1.core.files hx1.core.stagedOK hx1.core.idlt
+  rw [hseal.open_] at hs2; cases hs2
+  have hgg : g2' = g2 := PolicyP.Files_unique hgs2.files (hseal.inv.files.congr rfl rfl rfl)
+  subst hgg
+  obtain ⟨hfr2, dbf, hsf, hdf⟩ := bcommit_frame hx1.open_
+  rw [hseal.open_] at hsf; cases hsf
+  obtain ⟨hdrop, hinv3, habs3⟩ := bdrop_spec hseal
+  -- the ghost directory of the final state has grown from `g` above the marker
+  rw [hid1'] at hgs2
+  have hgs : GStep (IsBatch id) db g (bcommit (C05.runOps (bnew s sync id).1 ops).1).1 db2 g2' := by
+    have := hgs1.trans hgs2
+    exact ⟨this.files, this.grown, this.act, this.log⟩
+  have hwb : (bnew s sync id).1.world = s.world := by rw [bnew_eq hdb]
+  have hw2 := hfr2 (mergeDirName db.dir) (by rw [hd1]; exact Restart.mergeDirName_ne _)
+  have hwAll : (bcommit (C05.runOps (bnew s sync id).1 ops).1).1.world.get (mergeDirName db.dir)
+      = s.world.get (mergeDirName db.dir) := by
+    rw [hw2, hw1, hwb]
+  have hnp2 : NoPend (Engine.logOf g2') := by
+    by_cases he : b1.staged = []
+    · obtain ⟨_, e1, _, e2⟩ := hempty he
+      rw [e1, hx1.core.log, e2, List.append_nil]; exact hnp
+    · obtain ⟨new, p, e1, e2⟩ := hnonempty he
+      rw [e1]
+      exact NoPend_commit hnp (by have := hx1.core.idpos; omega) e2 (finRec b1.id) p rfl rfl
+  have hfin : (C05.runBatch s sync id ops).1 = (bdrop (bcommit (C05.runOps (bnew s sync id).1 ops).1).1).1 := rfl
+  rw [hfin] at hsL habsL ⊢
+  have hsL' := hsL
+  rw [hdrop] at hsL'
+  cases hsL'
+  refine ⟨{ db2 with batch := none }, g2', hsL, hdf.trans hd1, hinv3, habsL, ?_, hnp2⟩
+  · have hwd : (bdrop (bcommit (C05.runOps (bnew s sync id).1 ops).1).1).1.world
+        = (bcommit (C05.runOps (bnew s sync id).1 ops).1).1.world := by rw [hdrop]
+    exact hmo.grown hgs.grown (hmo.le_active hinv.files) (by rw [hwd]; exact hwAll)
+
+/-- **C06, the adopting restart after writes AND batches**: `C06_adopt` with `MergeOutW` weakened to
+    `MergeOutB`.  `Close` and `Open` under any valid configuration succeed, every key keeps its
+    value, the invariant holds for the merged ghost directory `gm ++ hi g n`, the merge directory is
+    gone, and a sealed log stays sealed. -/
+theorem C06_adopt_after_batches (s : St) (db : DB) (g : GDir) (n : Nat) (gm vis : GDir) (cfg' : Cfg)
+    (hdb : s.db = some db) (hinv : Inv s db g) (hmo : MergeOutB s.world db.dir g n gm vis)
+    (hF : MergeP.HintFits gm) (hcfg : cfg'.Valid) :
+    (close s).2 = .ok ∧ ∃ s' db', openDB (close s).1 db.dir cfg' = (s', .ok) ∧ s'.db = some db' ∧ db'.dir = db.dir ∧
+      (∀ k, absGet s' db' k = absGet s db k) ∧ Inv s' db' (gm ++ MergeP.hi g n) ∧
+      s'.world.get (mergeDirName db.dir) = none ∧
+      (NoPend (Engine.logOf g) → NoPend (Engine.logOf (gm ++ MergeP.hi g n))) :=
+  restart_adopt cfg' hdb hinv hmo hF hcfg
+
 end XixiKV.C01H
